@@ -319,10 +319,87 @@ def check_gaussian_merge(ctx, sf, spec):
         ctx.fail("gaussian-merge-order", f"gaussian_merge: {why}", dict(rp, out=out_ids))
 
 
+def check_optimize(ctx, sf, spec):
+    """`Program.optimize()` goes list -> grid -> (merges) -> DAG -> list.  Whatever it merges, the commands it hands through
+    keep the order of any two that share a mode or are linked by a measured parameter, every command that reads a measurement
+    result still comes after a measurement of that mode, and no measurement result is read by more commands than before"""
+    from strawberryfields.parameters import par_regref_deps
+    prog, cmds = progs.build(spec)
+    rp = dict(kind="opt", spec=spec)
+    ctx.oracle_cases += 1
+    try:
+        out = list(prog.optimize().circuit)
+    except Exception as e:  # noqa: BLE001
+        ctx.fail("optimize-raises", f"Program.optimize() raised {type(e).__name__}: {e}", rp)
+        return
+    ident = {id(c): i for i, c in enumerate(cmds)}
+    out_ids = [ident.get(id(c), -1) for c in out]
+    surv = [i for i in out_ids if i >= 0]
+    ctx.count("optimize", ["opt", spec], len(surv) < len(cmds) and len(surv) >= 2, sample=dict(spec=spec, out=out_ids))
+
+    def reads(c):
+        return sorted({r.ind for p_ in c.op.p for r in par_regref_deps(p_)}) if hasattr(c.op, "p") else []
+    why = None
+    if len(set(surv)) != len(surv):
+        why = "a command appears twice"
+    if not why:
+        why = py_respects(spec, surv, sorted(surv))
+    if not why:
+        measured = set()
+        for c in out:
+            for m in reads(c):
+                if m not in measured:
+                    why = f"{c.op} | {[r.ind for r in c.reg]} reads the measurement of mode {m} before any measurement of that mode"
+            if type(c.op).__name__.startswith("Measure"):
+                measured |= {r.ind for r in c.reg}
+            if why:
+                break
+    if not why:
+        n_src = sum(1 for c in cmds if reads(c))
+        n_out = sum(1 for c in out if reads(c))
+        if n_out > n_src:
+            why = f"{n_out} commands read a measurement result, {n_src} did before optimisation (a feed-forward is applied twice)"
+    if why:
+        ctx.fail("optimize-order", f"Program.optimize(): {why}", dict(rp, out=out_ids))
+
+
+def gen_feedforward(rng):
+    """circuits with measurements and same-family neighbours of gates with measured parameters, in both orders"""
+    n = rng.randint(2, 4)
+    spec = progs.rand_circuit(rng, n, rng.randint(2, 8), p_meas=0.5, fock_meas=False)
+    ops_ = spec["ops"]
+    measured = []
+    for i, o in enumerate(list(ops_)):
+        if progs.category(o["cls"]) == "meas":
+            measured += [r for r in o["regs"] if r not in measured]
+    if not measured:
+        m = rng.randrange(n)
+        ops_.insert(0, dict(cls="MeasureHomodyne", regs=[m], pars=[0.0]))
+        measured = [m]
+    first_meas = min(i for i, o in enumerate(ops_) if progs.category(o["cls"]) == "meas")
+    for _ in range(rng.randint(1, 3)):
+        m = rng.choice(measured)
+        tgt = rng.choice([x for x in range(n) if x != m])
+        cls = rng.choice(["Rgate", "Xgate", "Zgate", "Dgate", "Sgate"])
+        rest = [0.0] if cls in ("Dgate", "Sgate") else []
+        plain = dict(cls=cls, regs=[tgt], pars=[rng.choice([0.125, -0.25, 0.5])] + rest)
+        ff = dict(cls=cls, regs=[tgt], pars=[{"m": m, "k": rng.choice([1, 0.5, -1])}] + rest)
+        pos = [i for i, o in enumerate(ops_) if progs.category(o["cls"]) == "meas" and m in o["regs"]]
+        t = rng.randint(pos[0] + 1, len(ops_))
+        pair = [plain, ff] if rng.random() < 0.5 else [ff, plain]
+        if rng.random() < 0.3:
+            pair = [ff, dict(ff)]
+        ops_[t:t] = pair
+    return spec
+
+
 def run(ctx, sf):
     reqs, pending = [], []
     for spec in corpus_specs():
         check_spec(ctx, sf, spec, reqs, pending)
+    for k in range(ctx.n(300, 3000)):
+        spec = gen_feedforward(ctx.rng) if k % 2 else progs.rand_circuit(ctx.rng, ctx.rng.randint(1, 5), ctx.rng.randint(0, 10), p_meas=0.35)
+        check_optimize(ctx, sf, spec)
     for k in range(ctx.n(400, 4000)):
         check_gaussian_merge(ctx, sf, gen_hybrid(ctx.rng))
     rng = ctx.rng
@@ -357,6 +434,9 @@ def search(ctx, sf):
 def replay(ctx, rp):
     reqs, pending = [], []
     n0 = len(ctx.failures)
+    if rp.get("kind") == "opt":
+        check_optimize(ctx, sf_mod(), rp["spec"])
+        return len(ctx.failures) > n0
     if rp.get("kind") == "gm":
         check_gaussian_merge(ctx, sf_mod(), rp["spec"])
         return len(ctx.failures) > n0
